@@ -9,6 +9,7 @@ Direct evaluation (3d): the statement of C12 on rich's own task objects with a s
 """
 import collections
 import io
+import os
 import itertools
 import multiprocessing
 import random
@@ -52,6 +53,23 @@ class LazyClock(lp.Clock):
         # a few spare readings: the model must not read more often than the code did
         extra = [self.now + 1000003 * (i + 1) for i in range(3)]
         return " ".join(str(r) for r in self.readings + extra)
+
+
+def guard(ctx, site, inp, fn):
+    """Run one scenario; whatever it raises (the code under test raising while the scenario is set up,
+    a scheduled thread that never parks, a value leaving the exact domain ...) becomes a failed check
+    of that scenario instead of ending the run."""
+    try:
+        return fn()
+    except (KeyboardInterrupt, SystemExit):
+        raise
+    except BaseException as e:  # noqa: BLE001
+        import traceback
+
+        tb = traceback.extract_tb(e.__traceback__)
+        where = "; ".join(f"{os.path.basename(f.filename)}:{f.lineno} {f.name}" for f in tb[-4:])
+        ctx.check(False, site + ":raised", inp, f"{type(e).__name__}: {e}  [{where}]")
+        return None
 
 
 def snapshot(p):
@@ -134,8 +152,9 @@ def exhaustive_part(ctx, L, first_index):
             first = ("A", (n % 7) != 3, 6, 0 if n % 5 else 2, True, 1, [(1, 1)] if n % 2 else [])
             clock = LazyClock(u, None, cycle=cyc)
             obs = "de"[(n // 3) % 2]
-            run_history(ctx, u, 4, clock, lambda p, s=seq, f=first: [f] + list(s), "seq-exhaustive", f"len{L}",
-                        obs_of=lambda i, o=obs: o if i % 2 else "d", terminal=(n % 4 == 1))
+            guard(ctx, "seq-exhaustive", [lp.enc_op(o) for o in (first,) + seq],
+                  lambda: run_history(ctx, u, 4, clock, lambda p, s=seq, f=first: [f] + list(s), "seq-exhaustive", f"len{L}",
+                                      obs_of=lambda i, o=obs: o if i % 2 else "d", terminal=(n % 4 == 1)))
             count += 1
     ctx.note("exhaustive-histories", count)
 
@@ -242,9 +261,10 @@ def random_histories(ctx, count):
         clock = LazyClock(u, incs, rng=rng)
         nonneg = rng.random() < 0.6
         length = rng.randint(1, 8) if rng.random() < 0.5 else rng.randint(8, 30)
-        run_history(ctx, u, period, clock, random_ops(rng, u, length, huge, nonneg), "seq-random",
-                    f"A{A}T{T}{'H' if huge else ''}", obs_of=lambda n, r=rng.random(): "e" if (n * 7 + int(r * 10)) % 3 == 0 else "d",
-                    terminal=terminal)
+        guard(ctx, "seq-random", (i, A, T, period, terminal),
+              lambda: run_history(ctx, u, period, clock, random_ops(rng, u, length, huge, nonneg), "seq-random",
+                                  f"A{A}T{T}{'H' if huge else ''}", obs_of=lambda n, r=rng.random(): "e" if (n * 7 + int(r * 10)) % 3 == 0 else "d",
+                                  terminal=terminal))
         ctx.note("hist:period%d" % (0 if period == 0 else 1 if period < 30 else 2))
     ctx.flush()
 
@@ -265,7 +285,7 @@ def long_history(ctx, reps):
             yield ("U", 0, None, None, 1, None, False)
             yield ("V", 0, 1)
 
-        run_history(ctx, u, 10 ** 6, clock, gen, "seq-long", f"n{n}", obs_of=lambda i: "d" if i in marks else "n")
+        guard(ctx, "seq-long", n, lambda: run_history(ctx, u, 10 ** 6, clock, gen, "seq-long", f"n{n}", obs_of=lambda i: "d" if i in marks else "n"))
     ctx.flush()
 
 
@@ -453,8 +473,8 @@ def f21_directed(ctx):
     for a, b in [(1, 1), (2, 3)]:
         setup = [("A", True, 100, 0, True)]
         progs = [[("V", 0, a)], [("V", 0, b)]]
-        scheduled_run(ctx, 2, 1, fixed=(setup, progs, [0, 1, 1, 0]))
-        scheduled_run(ctx, 2, 1, fixed=(setup, progs, [0, 1, 0, 1]))
+        guard(ctx, "threads", ("directed", a, b, "r0 r1 c1 c0"), lambda: scheduled_run(ctx, 2, 1, fixed=(setup, progs, [0, 1, 1, 0])))
+        guard(ctx, "threads", ("directed", a, b, "r0 r1 c0 c1"), lambda: scheduled_run(ctx, 2, 1, fixed=(setup, progs, [0, 1, 0, 1])))
 
 
 # ------------------------------------------------------------------ 4. Progress.track
@@ -474,6 +494,10 @@ def track_seq(ctx, n, mode, existing, setup_ops):
     elif mode == "range":
         seq, total = range(n), None
         items = list(range(n))
+    elif mode == "list0":  # a sized sequence with an explicit total of 0
+        seq, total = items, 0
+    elif mode == "gen0":  # a generator with an explicit total of 0
+        seq, total = (x for x in items), 0
     else:  # total differs from the length
         seq, total = iter(items), n + 2
     out, heads = [], []
@@ -484,8 +508,8 @@ def track_seq(ctx, n, mode, existing, setup_ops):
             heads.append(f"ok@{clock.k}@{'1' if p.finished else '0'}0#" + lp.dump(p, u))
     except lp.DomainError:
         raise
-    except Exception as e:  # noqa: BLE001
-        ctx.check(False, "track:raised", (mode, n, existing), f"track() raised {type(e).__name__}: {e}")
+    except BaseException as e:  # noqa: BLE001
+        ctx.check(False, "track:raised", (mode, n, existing, total), f"track(total={total!r}) over {n} elements raised {type(e).__name__}: {e}")
         return
     heads.append(f"ok@{clock.k}@{'1' if p.finished else '0'}0#" + lp.dump(p, u))
     tid = task_id if existing else len([o for o in setup_ops if o[0] == "A"])
@@ -494,6 +518,8 @@ def track_seq(ctx, n, mode, existing, setup_ops):
         ctx.check(False, "track:count", (mode, n), "the tracked task does not exist after track()")
         return
     ctx.check(out == items, "track:yields", (mode, n), f"yielded {out!r}, sequence was {items!r}")
+    ctx.check(t.total == (n if total is None else total), "track:total", (mode, n, total),
+              f"task total is {t.total!r} after track(total={total!r}) over {n} elements")
     if not existing:
         ctx.check(t.completed == n, "track:count", (mode, n), f"fresh task completed={t.completed!r} after {n} elements")
     else:  # existing task (completed=2 before): the count adds to what was there
@@ -504,7 +530,23 @@ def track_seq(ctx, n, mode, existing, setup_ops):
              f"{len(out)}!" + ";".join(heads) + "!" + lp.dump(p, u), shape=f"seq-{mode}", sample=f"track({mode}, n={n}, existing={existing})")
 
 
-def track_thread(ctx, n, existing, close_after=None):
+def track_args(items, tot_mode):
+    """(sequence, total keyword, total the task must get): explicit total n over an iterator, explicit
+    total 0 over a list / a generator, or no total over a sized list"""
+    n = len(items)
+    if tot_mode == "n":
+        return iter(items), {"total": n}, n
+    if tot_mode == "zero-list":
+        return list(items), {"total": 0}, 0
+    if tot_mode == "zero-gen":
+        return (x for x in items), {"total": 0}, 0
+    return list(items), {}, n
+
+
+TOT_MODES = ["n", "n", "len", "zero-list", "zero-gen"]
+
+
+def track_thread(ctx, n, existing, close_after=None, tot_mode="n"):
     """auto_refresh=True (no display started): rich's own _TrackThread.run under the scheduler"""
     import rich.progress as rp
 
@@ -526,7 +568,8 @@ def track_thread(ctx, n, existing, close_after=None):
     rp._TrackThread = lp.make_track_thread_class(sched, seen)
     try:
         def consumer():
-            gen = p.track(iter(items), total=n, task_id=0 if existing else None, description="d0", update_period=0.1)
+            seq, kw, _ = track_args(items, tot_mode)
+            gen = p.track(seq, task_id=0 if existing else None, description="d0", update_period=0.1, **kw)
             for v in gen:
                 out.append(v)
                 sched.yield_point("y")
@@ -553,22 +596,25 @@ def track_thread(ctx, n, existing, close_after=None):
                 raise RuntimeError("track scheduler: no termination")
     finally:
         rp._TrackThread = orig
+    if sched.exc:  # track() itself or a thread it started raised (possibly before the helper thread existed)
+        ctx.check(False, "track-thread:raised", (n, existing, close_after, tot_mode),
+                  "track() / helper thread raised " + "; ".join(f"{w}: {type(e).__name__}: {e}" for w, e in sched.exc.items()))
+        return
     if sched.state.get("track") not in (None, "done") or sched.state["cons"] != "done":
         raise RuntimeError("track scheduler: a thread is stuck")
-    for who, e in sched.exc.items():
-        if isinstance(e, (lp.DomainError, RuntimeError)):
-            raise e
-    if sched.exc:
-        ctx.check(False, "track-thread:raised", (n, existing, close_after), f"track() / helper thread raised {sched.exc!r}")
-        return
+    want_total = track_args(items, tot_mode)[2]
     done = n if close_after is None else close_after - 1
     wakes = [v for v, fl in seen if not fl]
     finals = [v for v, fl in seen if fl]
     final = finals[-1] if finals else None
     tid = 0
-    t = next(x for x in p.tasks if x.id == tid)
+    t = next((x for x in p.tasks if x.id == tid), None)
+    if t is None:
+        ctx.check(False, "track-thread:count", (n, existing, tot_mode), "the tracked task does not exist after track()")
+        return
     want_items = items if close_after is None else items[:close_after]
     ctx.check(out == want_items, "track-thread:yields", (n, close_after), f"yielded {out!r}")
+    ctx.check(t.total == want_total, "track-thread:total", (n, tot_mode), f"task total {t.total!r}, wanted {want_total}")
     ctx.check(len(finals) == 1 and final == done, "track-thread:counter", (n, close_after, seen),
               f"helper thread read its counter {len(finals)} time(s) after it was told to stop, last value {final}; elements completed {done}")
     if close_after is None:
@@ -581,11 +627,11 @@ def track_thread(ctx, n, existing, close_after=None):
     # the operations are issued by rich's own helper thread, so there is no observation between them:
     # compared are the number of elements completed, the number of clock reads and the final dump
     ctx.case("pg_track", [cfg_str(60, 2), clock.enc(), ";".join(lp.enc_op(o) + " n" for o in setup), "thr",
-                          "0" if existing else "_", n, done, " ".join(map(str, wakes))],
-             f"FINAL:{done}@{clock.k}!" + lp.dump(p, u), shape="thr", sample=f"track thread n={n} wakes={wakes}")
+                          "0" if existing else "_", want_total, done, " ".join(map(str, wakes))],
+             f"FINAL:{done}@{clock.k}!" + lp.dump(p, u), shape="thr-" + tot_mode, sample=f"track thread n={n} total={tot_mode} wakes={wakes}")
 
 
-def track_live(ctx, n, refresh_weight):
+def track_live(ctx, n, refresh_weight, tot_mode="n"):
     """The whole auto-refresh path under the scheduler, on a terminal console: `with progress:` (start()
     spawns rich's _RefreshThread), `progress.track(...)` (spawns rich's _TrackThread), stop().  Three
     threads; every operation is atomic under the lock, so the run is the sequential history of the
@@ -606,8 +652,9 @@ def track_live(ctx, n, refresh_weight):
     rp._RefreshThread = lp.make_refresh_thread_class(sched)
     try:
         def consumer():
+            seq, kw, _ = track_args(items, tot_mode)
             with p:
-                for v in p.track(iter(items), total=n, description="d0", update_period=0.1):
+                for v in p.track(seq, description="d0", update_period=0.1, **kw):
                     out.append(v)
                     sched.yield_point("y")
                 at_return.extend(t.completed for t in p._tasks.values())
@@ -629,27 +676,28 @@ def track_live(ctx, n, refresh_weight):
                 raise RuntimeError("track-live scheduler: no termination")
     finally:
         rp._TrackThread, rp._RefreshThread = orig
+    site_in = (n, tot_mode, " ".join(f"{k}:{x}" for k, x in sched.events))
+    if sched.exc:  # start() / track() / a thread raised, possibly before the helper threads existed
+        ctx.check(False, "track-live:raised", site_in,
+                  "`with progress: track(...)` raised " + "; ".join(f"{w}: {type(e).__name__}: {e}" for w, e in sched.exc.items()))
+        return
     for who in ("cons", "track", "refresh"):
         if sched.state.get(who) != "done":
             raise RuntimeError(f"track-live scheduler: thread {who} is {sched.state.get(who)}")
-    for who, e in sched.exc.items():
-        if isinstance(e, (lp.DomainError, RuntimeError)):
-            raise e
-    site_in = (n, " ".join(f"{k}:{x}" for k, x in sched.events))
-    if sched.exc:
-        ctx.check(False, "track-live:raised", site_in, f"raised {sched.exc!r}")
-        return
+    want_total = track_args(items, tot_mode)[2]
     wakes = [v for v, fl in seen if not fl]
     finals = [v for v, fl in seen if fl]
     ctx.check(out == items, "track-live:yields", site_in, f"yielded {out!r}")
     ctx.check(finals == [n], "track-live:counter", site_in, f"helper thread's final count {finals}, elements {n}")
     ctx.check(at_return == [n], "track-live:count-at-return", site_in, f"completed {at_return} when track() returned, elements {n}")
     ts = p.tasks
-    ctx.check(len(ts) == 1 and ts[0].completed == n and ts[0].finished, "track-live:count", site_in,
+    ctx.check(len(ts) == 1 and ts[0].completed == n and (ts[0].finished or n < want_total), "track-live:count", site_in,
               f"after the run: {[(t.completed, t.finished) for t in ts]}")
+    ctx.check(len(ts) == 1 and ts[0].total == want_total, "track-live:total", site_in,
+              f"task total {[t.total for t in ts]}, wanted {want_total}")
     ctx.check(not any(k == "r" for k, _ in sched.events), "threads:lock-discipline", site_in, "a clock read outside the lock")
     # the history in lock-acquisition order
-    per = {"cons": iter([("B",), ("A", True, n, 0, True, 0, []), ("E",)]),
+    per = {"cons": iter([("B",), ("A", True, want_total, 0, True, 0, []), ("E",)]),
            "track": iter([("V", 0, b - a) for a, b in zip([0] + wakes, wakes) if a != b] + [("U", 0, None, n, None, None, True)])}
     hist, ok = [], True
     for k, who in sched.events:
@@ -672,7 +720,7 @@ def track_live(ctx, n, refresh_weight):
     enc = [lp.enc_op(o) + " q" for o in hist[:-1]] + [lp.enc_op(hist[-1]) + " d"]
     ctx.case("pg_hist", [cfg_str(60, 2, True), clock.enc(), ";".join(enc)],
              f"ok@{clock.k}@{'1' if p.finished else '0'}{'1' if p._started else '0'}#" + lp.dump(p, u),
-             shape="live", sample=f"with progress: track({n}) with refresh + track threads: " + " ".join(lp.enc_op(o)[0] for o in hist))
+             shape="live-" + tot_mode, sample=f"with progress: track({n}, total={tot_mode}) with refresh + track threads: " + " ".join(lp.enc_op(o)[0] for o in hist))
 
 
 def track_real_timing(ctx, n):
@@ -719,12 +767,17 @@ def terminal_histories(ctx, count):
     with the model; the statement is evaluated directly."""
     rng = ctx.rng
     for _ in range(count):
+        done = []
+        guard(ctx, "terminal", done, lambda: _terminal_history(ctx, rng, done))
+
+
+def _terminal_history(ctx, rng, done):
+    if True:
         u = lp.Units(rng.choice([1, 2]), rng.choice([1, 4]))
         period = rng.choice([4, 30 * u.T])
         clock = LazyClock(u, [0, 1, 2], rng=rng)
         p = lp.make_progress(clock, period, u, terminal=True)
         spec = lp.Spec()
-        done = []
         for n, op in enumerate(random_ops(rng, u, rng.randint(2, 12), False, True)(p)):
             before = snapshot(p)
             res = lp.apply_op(p, op, u, glue=n)
@@ -735,9 +788,7 @@ def terminal_histories(ctx, count):
                 try:
                     p.refresh()
                     ok = True
-                except lp.DomainError:
-                    raise
-                except Exception as e:  # noqa: BLE001
+                except BaseException as e:  # noqa: BLE001
                     ok = False
                     why = f"{type(e).__name__}: {e}"
                 ctx.check(ok, "terminal:refresh", list(done), "refresh() raised " + ("" if ok else why))
@@ -802,25 +853,34 @@ def _job(job):
     kind, quick, seed, key, arg = job
     lp.STATS.clear()
     st = Stub(quick, seed, key)
-    if kind == "exh":
-        exhaustive_part(st, *arg)
-    elif kind == "rand":
-        random_histories(st, arg)
-    elif kind == "sched":
-        for i in range(arg):
-            nt = st.rng.choice([2, 2, 3, 3, 4] if i % 8 else [5, 6, 8])
-            scheduled_run(st, nt, 3 if nt <= 4 else 2)
-    elif kind == "thr":
-        for i in range(arg):
-            n = st.rng.randint(0, 7)
-            existing = st.rng.random() < 0.3
-            close_after = st.rng.randint(1, n) if n and st.rng.random() < 0.15 else None
-            track_thread(st, n, existing, close_after)
-    elif kind == "live":
-        for i in range(arg):
-            track_live(st, st.rng.randint(0, 6), st.rng.choice([0.1, 0.3, 0.5]))
-    elif kind == "term":
-        terminal_histories(st, arg)
+    try:
+        if kind == "exh":
+            exhaustive_part(st, *arg)
+        elif kind == "rand":
+            random_histories(st, arg)
+        elif kind == "sched":
+            for i in range(arg):
+                nt = st.rng.choice([2, 2, 3, 3, 4] if i % 8 else [5, 6, 8])
+                guard(st, "threads", (key, i, nt), lambda: scheduled_run(st, nt, 3 if nt <= 4 else 2))
+        elif kind == "thr":
+            for i in range(arg):
+                n = st.rng.randint(0, 7)
+                existing = st.rng.random() < 0.3
+                close_after = st.rng.randint(1, n) if n and st.rng.random() < 0.15 else None
+                tm = "n" if existing else st.rng.choice(TOT_MODES)
+                guard(st, "track-thread", (key, i, n, existing, close_after, tm), lambda: track_thread(st, n, existing, close_after, tm))
+        elif kind == "live":
+            for i in range(arg):
+                n, w, tm = st.rng.randint(0, 6), st.rng.choice([0.1, 0.3, 0.5]), st.rng.choice(TOT_MODES)
+                guard(st, "track-live", (key, i, n, tm), lambda: track_live(st, n, w, tm))
+        elif kind == "term":
+            terminal_histories(st, arg)
+    except (KeyboardInterrupt, SystemExit):
+        raise
+    except BaseException as e:  # noqa: BLE001 - a worker never aborts the run
+        import traceback
+
+        st.check(False, f"job:{kind}:raised", key, f"{type(e).__name__}: {e}\n" + traceback.format_exc()[-1500:])
     return st.cases, dict(st.calls), st.fails, dict(st.notes), dict(lp.STATS)
 
 
@@ -828,7 +888,19 @@ def parallel(ctx, jobs):
     """run jobs in worker processes (each with its own rng derived from the seed and the job key, so a
     seed replays), merge their cases / checks / notes into ctx in job order"""
     with multiprocessing.get_context("fork").Pool(min(12, max(2, (multiprocessing.cpu_count() or 4) - 2))) as pool:
-        for cases, calls, fails, notes, stats in pool.imap(_job, jobs):
+        it = pool.imap(_job, jobs)
+        for job in jobs:
+            try:
+                cases, calls, fails, notes, stats = it.next(timeout=1200)
+            except multiprocessing.TimeoutError:
+                ctx.check(False, f"job:{job[0]}:timeout", job[3], "a worker did not finish its scenarios within 20 minutes (the code under test hangs?)")
+                pool.terminate()
+                break
+            except (KeyboardInterrupt, SystemExit):
+                raise
+            except BaseException as e:  # noqa: BLE001
+                ctx.check(False, f"job:{job[0]}:raised", job[3], f"worker failed: {type(e).__name__}: {e}")
+                continue
             for fn, args, ans, shape, sample in cases:
                 ctx.case(fn, args, ans, shape=shape, sample=sample)
             nf = collections.Counter(site for (site, _f) in fails)
@@ -854,13 +926,14 @@ def run(ctx):
         "threads: one step = code between two yield points (clock read outside the lock / outermost lock acquisition / Event.wait of the track thread); a thread holding the lock is never preempted, so preemption inside a body and inside a source line is not exhibited",
     ]
     quick = ctx.quick
-    percentages(ctx)
+    guard(ctx, "percentage_spec", "grid", lambda: percentages(ctx))
     f21_directed(ctx)
     long_history(ctx, 2 if quick else 8)
     for n in range(0, 6 if quick else 12):
-        for mode in ("list", "gen", "range", "total+2"):
+        for mode in ("list", "gen", "range", "total+2", "list0", "gen0"):
             for existing in (False, True):
-                track_seq(ctx, n, mode, existing, [("A", True, 7, 2, True)] if existing else ([] if n % 2 else [("A", False, 3, 1, True)]))
+                setup = [("A", True, 7, 2, True)] if existing else ([] if n % 2 else [("A", False, 3, 1, True)])
+                guard(ctx, "track", (mode, n, existing), lambda: track_seq(ctx, n, mode, existing, setup))
     ctx.flush()
     jobs = []
     na = len(alphabet())
@@ -874,8 +947,8 @@ def run(ctx):
     jobs += [("term", quick, ctx.seed, f"term{i}", (120 if quick else 2400) // chunks) for i in range(chunks)]
     parallel(ctx, jobs)
     for n in ([0, 1, 50, 400] if quick else [0, 1, 2, 50, 400, 3000, 20000]):
-        track_real_timing(ctx, n)
-    track_errors(ctx)
+        guard(ctx, "track-real", n, lambda: track_real_timing(ctx, n))
+    guard(ctx, "track", "unsized without total", lambda: track_errors(ctx))
     for k, v in sorted(lp.STATS.items()):
         ctx.note(k, v)
     ctx.rule = (
